@@ -185,6 +185,34 @@ def reject_strategy(tier):
                      gen.pick((3, gen.uint(1, 8)), (1, gen.uint(9, 5000))))
 
 
+
+# ---------------------------------------------------------------------------
+# one object, several messages in a row (the digest must be the standard's for every one of them)
+def check_reuse(c):
+    alg = c["alg"]
+    h = guard(make, alg)
+    for i, (M, L) in enumerate(c["msgs"]):
+        if L is not None and L > 8 * len(M):
+            st_, r = attempt(h, M, bitlen=L)
+            if st_ == "ok":
+                raise Violation(alg + ":bitlen>8|M|-accepted", "an exception", r)
+            continue
+        got = guard(h, M) if L is None else guard(h, M, bitlen=L)
+        exp = R.digest(alg, M, L)
+        if got != exp:
+            raise Violation(alg + ":reused-object:digest!=standard", {"call": i, "digest": exp}, {"call": i, "digest": got})
+
+
+def reuse_strategy(tier):
+    def for_alg(alg):
+        B = blockbytes(alg)
+        msg = st.tuples(gen.blob_of(gen.pick((2, gen.uint(0, 20)), (1, gen.uint(B - 20, B + 20)), (1, gen.uint(0, 3 * B)))),
+                        gen.uint(0, 3), gen.uint(1, 7)).map(
+            lambda t: (t[0], None if t[1] <= 1 or not t[0] else 8 * len(t[0]) - t[2] if t[1] == 2 else 8 * len(t[0]) + t[2]))
+        return st.lists(msg, min_size=2, max_size=4).map(lambda l: {"alg": alg, "msgs": tuple(l)})
+    return st.sampled_from(ALGS).flatmap(for_alg)
+
+
 FACETS = [
     Facet("length-sweep", check_digest, cases=sweep_cases, nontrivial=lambda c: len(c["M"]) >= 1, classify=classify,
           shards={"quick": 8, "thorough": 16},
@@ -201,6 +229,10 @@ FACETS = [
           nontrivial=lambda c: True, classify=classify_preset,
           rule="initstate(); H := random chaining words; padmethod.bitcnt := block multiple near 2^w, 2^(2w) or uniformly large; "
                "update(tail, padding=True) == reference resumed from the same midstate"),
+    Facet("reused-object", check_reuse, strategy=reuse_strategy, budget={"quick": 800, "thorough": 20000},
+          nontrivial=lambda c: len(c["msgs"]) >= 2,
+          classify=lambda c: (c["alg"], "has rejected call" if any(L is not None and L > 8 * len(M) for M, L in c["msgs"]) else "no rejected call"),
+          rule="2..4 messages (byte and bit lengths, some with an over-long bit length that must be refused) hashed one after the other by ONE object"),
     Facet("reject-bitlen", check_reject, strategy=reject_strategy, budget={"quick": 600, "thorough": 10000},
           nontrivial=lambda c: True, classify=lambda c: (c["alg"],),
           rule="L = 8|M| + d, d >= 1: an exception, never a digest"),
